@@ -456,6 +456,58 @@ Section RealText.
   Qed.
 End RealText.
 
+(* ---------------------------------------------------------------------------------------------- *)
+(* 3. extract_text: the fragments of all pages in order, `?` on each                                 *)
+(* ---------------------------------------------------------------------------------------------- *)
+
+(* flat_map: Ok(text_chunks) => text_chunks (the encoding errors of the page are Err chunks), Err(err) => vec![Err(err)] *)
+Definition page_fragments (o : out (nat * list (option ustring))) : out (list (option ustring)) :=
+  match o with
+  | Ok (nerr, chunks) => Ok (repeat None nerr ++ chunks)
+  | Err => Ok [None]
+  | Panic p => Panic p
+  | OutOfFuel => OutOfFuel
+  end.
+
+Fixpoint all_fragments (pages : list (out (nat * list (option ustring)))) : out (list (option ustring)) :=
+  match pages with
+  | [] => Ok []
+  | o :: r => obind' (page_fragments o) (fun f => obind' (all_fragments r) (fun fr => Ok (f ++ fr)))
+  end.
+
+(* for fragment in fragments { text.push_str(&fragment?) } *)
+Fixpoint concat_fragments (l : list (option ustring)) (acc : ustring) : out ustring :=
+  match l with
+  | [] => Ok acc
+  | Some t :: l' => concat_fragments l' (acc ++ t)
+  | None :: _ => Err
+  end.
+
+Definition extract_text_x (dx : dict -> bytes -> out bytes)
+    (tx : list (bytes * enc_class) -> bytes -> out (list (option ustring)))
+    (fuel : nat) (d : doc) (page_numbers : list N) : out ustring :=
+  obind' (all_fragments (extract_text_chunks_x dx tx fuel d page_numbers)) (fun l => concat_fragments l []).
+
+Lemma all_fragments_returns pages : Forall returns pages -> returns (all_fragments pages).
+Proof.
+  induction 1 as [|o r Ho _ IH]; cbn [all_fragments]; [exact I|].
+  destruct o as [[nerr chunks]| | |]; cbn [returns page_fragments obind'] in *; try contradiction;
+    destruct (all_fragments r); cbn [returns obind'] in *; try exact I; contradiction.
+Qed.
+
+Lemma concat_fragments_returns l : forall acc, returns (concat_fragments l acc).
+Proof. induction l as [|[t|] l IH]; intro acc; cbn [concat_fragments]; [exact I | apply IH | exact I]. Qed.
+
+Theorem extract_text_total_real inflate lzw utf16be_bom other_sections d ns fuel :
+  fuel_text (d_objects d) <= fuel ->
+  returns (extract_text_x (decomp_real inflate lzw) (text_of_real inflate lzw utf16be_bom other_sections) fuel d ns).
+Proof.
+  intro H. unfold extract_text_x.
+  pose proof (all_fragments_returns _ (proj1 (extract_text_chunks_total_real inflate lzw utf16be_bom other_sections d ns fuel H))) as HA.
+  destruct (all_fragments _) as [l| | |]; cbn [returns obind'] in *; try exact I; try contradiction.
+  apply concat_fragments_returns.
+Qed.
+
 (* ---- non-vacuity: one page, a WinAnsi font and an Identity-H font with a ToUnicode CMap behind ASCIIHex ---- *)
 Definition ex_cmap_text : bytes := Eval cbv in bs
   "/CIDInit /ProcSet findresource begin 12 dict begin begincmap /CMapType 2 def 1 begincodespacerange <00> <ff> endcodespacerange 1 beginbfrange <41> <43> <0061> endbfrange endcmap CMapName currentdict /CMap defineresource pop end end".
@@ -488,3 +540,13 @@ Lemma example_real_text :
       (fuel_text (d_objects ex_real_doc)) ex_real_doc [1%N; 2%N]
   = [Ok (O, [Some [72; 105]; Some [97; 98; 99; 32; 65533; 32; 10]]%N); Err].
 Proof. vm_compute. reflexivity. Qed.
+
+Lemma example_real_extract_text :
+  extract_text_x (decomp_real (fun _ => []) (fun _ _ => []))
+      (text_of_real (fun _ => []) (fun _ _ => []) (fun _ => []) (fun _ => None))
+      (fuel_text (d_objects ex_real_doc)) ex_real_doc [1%N]
+  = Ok [72; 105; 97; 98; 99; 32; 65533; 32; 10]%N /\
+  extract_text_x (decomp_real (fun _ => []) (fun _ _ => []))
+      (text_of_real (fun _ => []) (fun _ _ => []) (fun _ => []) (fun _ => None))
+      (fuel_text (d_objects ex_real_doc)) ex_real_doc [1%N; 2%N] = Err.
+Proof. split; vm_compute; reflexivity. Qed.
